@@ -1387,4 +1387,75 @@ theorem sem_unknown_shape_refused (s : String) (w : World) (l : Local) (self : N
 
 end SemanticTie
 
+/-! ## Whole histories (round 8b): every alert sequence at one handler; expiry over several sweep rounds -/
+section Sequences
+
+/-- one alert of any kind (ping for any peer under any peerset view, or skipped) keeps well-formedness and the key set -/
+theorem handleEv_keys (pc : PeerCfg) (st : PinMap) (hw : st.wf = true) (e : AlertEv) (c : Nat) :
+    (handleEv pc st e).wf = true ∧ ((handleEv pc st e).get c).isSome = (st.get c).isSome := by
+  cases e with
+  | skipped => exact ⟨hw, rfl⟩
+  | ping w f ch =>
+    exact ⟨act_inv (alertSweeper f) ⟨w, pc, ch⟩ st hw, onAlert_keys w pc f ch st hw c⟩
+
+/-- **every alert sequence** (hint 4): whatever alerts a member's handler receives — several failed peers, the same peer
+repeatedly, non-members, alerts it can do nothing about, each seen under another peerset view — no cid leaves the pinset
+and none is added -/
+theorem alerts_never_remove (pc : PeerCfg) (evs : List AlertEv) (st : PinMap) (hw : st.wf = true) (c : Nat) :
+    (handleAlerts pc st evs).wf = true ∧ ((handleAlerts pc st evs).get c).isSome = (st.get c).isSome := by
+  induction evs generalizing st with
+  | nil => exact ⟨hw, rfl⟩
+  | cons e es ih =>
+    obtain ⟨h1, h2⟩ := handleEv_keys pc st hw e c
+    obtain ⟨i1, i2⟩ := ih (handleEv pc st e) h1
+    exact ⟨i1, by rw [← h2]; exact i2⟩
+
+/-- a follower, or a member with re-pinning disabled, leaves the pinset as it is for every alert sequence -/
+theorem alerts_inert_when_disabled (pc : PeerCfg) (h : (pc.follower || pc.disableRepin) = true) (evs : List AlertEv) (st : PinMap) :
+    handleAlerts pc st evs = st := by
+  induction evs generalizing st with
+  | nil => rfl
+  | cons e es ih =>
+    have : handleEv pc st e = st := by
+      cases e with
+      | skipped => rfl
+      | ping w f ch => simp only [handleEv, onAlert, h, if_true]
+    simp only [handleAlerts, List.foldl_cons, this]
+    exact ih st
+
+example : ((handleAlerts exA0.pc [exPin] [.skipped, .ping exW 1 exA0.ch, .ping exW 2 exA0.ch, .ping exW 9 exA0.ch]).get 5).isSome = true := by decide
+
+/-- a cid the pinset does not hold gets no operation in a sync round (any schedule, both disciplines) and stays absent -/
+theorem sync_round_absent (w : World) (sched : List Actor) (pre : PinMap)
+    (hA : AgreedRound w none sched) (hI : allData pre) (c : Nat) (hc : pre.get c = none) :
+    roundFor c (roundSync sched pre).2 = [] ∧ (roundSync sched pre).1.get c = none ∧
+    roundFor c (snapLogsSync sched pre) = [] := by
+  rcases sync_round_cid w sched pre hA hI c with ⟨d, _, _, h1, h2, h3⟩ | ⟨_, h1, h2, h3⟩
+  · obtain ⟨s1, s2⟩ := syncAct_spec d pre hI c
+    simp only [hc] at s2
+    rw [s2] at s1 h1
+    simp only [List.map_nil] at h1
+    refine ⟨h1, ?_, by rw [h3, h1]⟩
+    rw [h2, s1, hc]; rfl
+  · exact ⟨h1, by rw [h2, hc], h3⟩
+
+/-- **expiry once over several sweeps** (hint 2): an expired pin whose closest member is not a follower is unpinned exactly
+once by the first sweep round; a later sweep round — other members, other schedule, another agreed peerset, any clock — logs
+nothing for it and it stays gone -/
+theorem expiry_once_over_rounds (w w' : World) (s1 s2 : List Actor) (pre : PinMap)
+    (hA : AgreedRound w none s1) (hA' : AgreedRound w' none s2) (hI : allData pre)
+    (x : Pin) (hx : pre.get x.cid = some x) (hexp : expired x = true)
+    (d : Actor) (hd : d ∈ s1) (hc : isClosest w d.pc.self none x.cid = true) (hf : d.pc.follower = false) :
+    roundFor x.cid (roundSync s1 pre).2 = [(d.pc.self, .logUnpin x.cid)] ∧
+    roundFor x.cid (roundSync s2 (roundSync s1 pre).1).2 = [] ∧
+    (roundSync s2 (roundSync s1 pre).1).1.get x.cid = none := by
+  obtain ⟨r1, r2, _⟩ := ((expiry_once w s1 pre hA hI x hx).2 hexp d hd hc).1 hf
+  obtain ⟨q1, q2, _⟩ := sync_round_absent w' s2 _ hA' (sync_state_is_commit s1 pre hI).1 x.cid r2
+  exact ⟨r1, q1, q2⟩
+
+example : roundFor 5 (roundSync [exA2, exA0] [exOld]).2 = [(0, .logUnpin 5)] ∧
+    roundFor 5 (roundSync [exA0, exA2] (roundSync [exA2, exA0] [exOld]).1).2 = [] := by decide
+
+end Sequences
+
 end CV.C10
